@@ -1,4 +1,414 @@
 package main
 
-func cmdCheck(args []string) int  { return 2 }
-func cmdReplay(args []string) int { return 2 }
+import (
+	"bufio"
+	"encoding/json"
+	"flag"
+	"fmt"
+	"os"
+	"path/filepath"
+	"sort"
+	"strconv"
+	"strings"
+	"sync/atomic"
+	"time"
+)
+
+// CheckSpec describes how one property is decided.
+type CheckSpec struct {
+	Prop        string
+	Level       string
+	Panics      bool // panic / unwinding obligations count for this property
+	Frame       bool // frame-monitor obligations count
+	Jobs        func(tier string) []*Job
+	Bounds      func(tier string) map[string]interface{}
+	Assumptions []string
+	Outside     []string
+	Explain     string
+	Budget      map[string]time.Duration
+}
+
+var panicKinds = map[string]bool{"index-oob": true, "slice-oob": true, "nil-deref": true, "type-assert": true, "div0": true,
+	"explicit-panic": true, "uncomparable-eq": true, "negshift": true, "nil-map-write": true, "reflect-panic": true,
+	"makeslice-range": true, "recursion-depth": true, "step-budget": true, "unwind": true}
+
+type Known struct {
+	Status   string `json:"status"`
+	Property string `json:"property"`
+	Key      string `json:"key"`
+	What     string `json:"what"`
+	Commit   string `json:"commit,omitempty"`
+}
+
+func loadKnown() []Known {
+	var out []Known
+	f, err := os.Open(filepath.Join(verifDir(), "known_findings.jsonl"))
+	if err != nil {
+		return out
+	}
+	defer f.Close()
+	sc := bufio.NewScanner(f)
+	for sc.Scan() {
+		l := strings.TrimSpace(sc.Text())
+		if l == "" || strings.HasPrefix(l, "#") {
+			continue
+		}
+		var k Known
+		if json.Unmarshal([]byte(l), &k) == nil {
+			out = append(out, k)
+		}
+	}
+	return out
+}
+
+type sample struct {
+	Harness  string   `json:"harness"`
+	Inputs   []string `json:"inputs"`
+	Observed []string `json:"observed,omitempty"`
+	Native   string   `json:"native,omitempty"`
+}
+
+func cmdCheck(args []string) int {
+	if len(args) < 1 {
+		usage()
+	}
+	prop := args[0]
+	fs := flag.NewFlagSet("check", flag.ExitOnError)
+	tier := fs.String("tier", "", "quick|thorough")
+	workers := fs.Int("workers", 16, "")
+	keep := fs.Bool("keep", false, "keep going after first violation")
+	fs.Parse(args[1:])
+	if *tier == "" {
+		*tier = os.Getenv("VERIF_TIER")
+	}
+	if *tier == "" {
+		*tier = "quick"
+	}
+	_ = keep
+	seed, _ := strconv.Atoi(os.Getenv("VERIF_SEED"))
+	spec, ok := specs[prop]
+	if !ok {
+		fmt.Println("unknown property", prop)
+		return 2
+	}
+	t0 := time.Now()
+	P, err := loadProgram()
+	if err != nil {
+		fmt.Println("INCONCLUSIVE property=" + prop + " reason=load: " + err.Error())
+		writeEvidence(spec, *tier, seed, nil, nil, time.Since(t0), []string{"load error: " + err.Error()}, nil, nil, 0, 0, nil)
+		return 2
+	}
+	P.loadSecs = time.Since(t0).Seconds()
+	jobs := spec.Jobs(*tier)
+	budget := spec.Budget[*tier]
+	if budget == 0 {
+		budget = 10 * time.Minute
+		if *tier == "thorough" {
+			budget = 100 * time.Minute
+		}
+	}
+	s := newSched(P, time.Now().Add(budget))
+	for _, j := range jobs {
+		j.Frame = spec.Frame
+		s.add(j)
+	}
+	s.run(*workers)
+
+	// ---- collect ----
+	var problems []string
+	var findings []*Finding
+	var cases []Case
+	nW := 0
+	for ji, j := range jobs {
+		if j.incomplete || atomic.LoadInt64(&j.pendingCnt) != 0 {
+			problems = append(problems, "exploration of "+j.describe()+" did not finish within the time budget")
+		}
+		for _, u := range j.unsupp {
+			problems = append(problems, "unsupported in "+j.describe()+": "+u)
+		}
+		if j.nUnknown > 0 {
+			problems = append(problems, fmt.Sprintf("%d solver unknown/timeout answers in %s: %v", j.nUnknown, j.describe(), j.unknowns))
+		}
+		for _, f := range j.allFindings() {
+			rel := false
+			switch {
+			case f.Kind == "assert":
+				rel = strings.HasPrefix(f.ID, "MODEL:") || j.assertActive(f.ID)
+			case f.Kind == "frame-write":
+				rel = spec.Frame
+			case panicKinds[f.Kind]:
+				rel = spec.Panics
+				if !rel && (f.Kind == "unwind" || f.Kind == "step-budget" || f.Kind == "recursion-depth") {
+					problems = append(problems, "loop/recursion budget exceeded in "+j.describe()+" at "+f.Func)
+				}
+			}
+			if rel {
+				findings = append(findings, f)
+				cases = append(cases, Case{ID: fmt.Sprintf("F%d", len(findings)-1), Entry: j.Entry, Params: j.Params, Tape: f.Tape})
+			}
+		}
+		for wi, w := range j.witnesses {
+			cases = append(cases, Case{ID: fmt.Sprintf("W%d_%d", ji, wi), Entry: w.Entry, Params: w.Params, Tape: w.Tape})
+			nW++
+		}
+	}
+	if len(s.solverErrors) > 0 {
+		problems = append(problems, "solver error lines: "+strings.Join(s.solverErrors[:min(3, len(s.solverErrors))], " / "))
+	}
+	// ---- native replay ----
+	native, nlog, nerr := runNative(P, cases)
+	if nerr != nil {
+		problems = append(problems, "native replay failed: "+nerr.Error())
+	}
+	_ = nlog
+	validated := 0
+	var samples []sample
+	for ji, j := range jobs {
+		for wi, w := range j.witnesses {
+			id := fmt.Sprintf("W%d_%d", ji, wi)
+			r, ok := native[id]
+			if !ok {
+				continue
+			}
+			if r.Abstract {
+				continue
+			}
+			same := r.Outcome == "ok" && len(r.Notes) == len(w.Notes)
+			if same {
+				for k := range w.Notes {
+					if w.Notes[k] != r.Notes[k] {
+						same = false
+					}
+				}
+			}
+			if same {
+				validated++
+				if len(samples) < 6 && (wi == 0) {
+					samples = append(samples, sample{Harness: j.describe(), Inputs: w.Tape, Observed: w.Notes, Native: "agrees"})
+				}
+			} else {
+				problems = append(problems, fmt.Sprintf("ENGINE-MISMATCH on passing path of %s: tape=%v predicted=%v native=%s %s %v", j.describe(), w.Tape, w.Notes, r.Outcome, r.Detail, r.Notes))
+			}
+		}
+	}
+	// ---- classify findings ----
+	known := loadKnown()
+	type viol struct {
+		f      *Finding
+		native NativeResult
+		path   string
+	}
+	var violations []viol
+	var knownHit []string
+	var unconfirmed []string
+	seenKey := map[string]bool{}
+	for i, f := range findings {
+		r, ok := native[fmt.Sprintf("F%d", i)]
+		confirmed := false
+		if ok {
+			switch {
+			case f.Kind == "assert":
+				confirmed = (r.Outcome == "assert" || r.Outcome == "panic")
+			case f.Kind == "frame-write":
+				confirmed = r.Outcome == "assert" && r.Detail == "frame-write"
+			case f.Kind == "unwind" || f.Kind == "step-budget" || f.Kind == "recursion-depth":
+				confirmed = r.Outcome == "timeout" || r.Outcome == "panic"
+			default:
+				confirmed = r.Outcome == "panic"
+			}
+		}
+		if !confirmed {
+			msg := fmt.Sprintf("%s (%s) tape=%v native=%s %s", f.Key, f.Job, f.Tape, r.Outcome, r.Detail)
+			if len(f.Abstract) > 0 {
+				unconfirmed = append(unconfirmed, msg+" abstract="+strings.Join(f.Abstract, ","))
+			} else if nerr == nil {
+				problems = append(problems, "ENGINE-MISMATCH: counterexample did not reproduce natively: "+msg)
+			}
+			continue
+		}
+		if seenKey[f.Key] {
+			continue
+		}
+		seenKey[f.Key] = true
+		isKnown := false
+		for _, k := range known {
+			if k.Status == "finding" && k.Property == prop && k.Key == f.Key {
+				isKnown = true
+				knownHit = append(knownHit, f.Key)
+				fmt.Printf("KNOWN-FINDING: property=%s %s (%s)\n", prop, f.Key, k.What)
+			}
+		}
+		if !isKnown {
+			violations = append(violations, viol{f: f, native: r})
+		}
+	}
+	// ---- write replays, report ----
+	exit := 0
+	if len(violations) > 0 {
+		exit = 1
+		dir := filepath.Join(verifDir(), "replays", prop)
+		os.RemoveAll(dir)
+		for i := range violations {
+			v := &violations[i]
+			d := filepath.Join(dir, strconv.Itoa(i))
+			os.MkdirAll(d, 0755)
+			v.path = filepath.Join(d, "case.json")
+			cj, _ := json.MarshalIndent(map[string]interface{}{"property": prop, "finding": v.f, "native": v.native,
+				"case": Case{ID: "R", Entry: v.f.Entry, Params: v.f.Params, Tape: v.f.Tape}}, "", " ")
+			os.WriteFile(v.path, cj, 0644)
+			fmt.Printf("VIOLATION property=%s replay=%s\n", prop, v.path)
+			fmt.Printf("  what: %s at %s in harness [%s]\n  inputs: %s\n  native: %s %s %s\n", v.f.Key, v.f.Where, v.f.Job, strings.Join(v.f.Tape, " | "), v.native.Outcome, v.native.Detail, v.native.Func)
+			if len(samples) < 10 {
+				samples = append(samples, sample{Harness: v.f.Job, Inputs: v.f.Tape, Observed: []string{"VIOLATION " + v.f.Key}, Native: v.native.Outcome + " " + v.native.Detail})
+			}
+		}
+	}
+	if exit == 0 && len(problems) > 0 {
+		exit = 2
+	}
+	for i, p := range problems {
+		if i >= 8 {
+			fmt.Printf("INCONCLUSIVE property=%s ... and %d more reasons (see evidence file)\n", prop, len(problems)-i)
+			break
+		}
+		fmt.Println("INCONCLUSIVE property=" + prop + " reason=" + p)
+	}
+	var paths, branches, obl, steps int64
+	funcs := map[string]bool{}
+	ends := map[string]int{}
+	for _, j := range jobs {
+		paths += j.paths
+		branches += j.branches
+		obl += j.obligations.Load()
+		steps += j.steps
+		for f := range j.funcs {
+			funcs[f] = true
+		}
+		for k, v := range j.ends {
+			ends[k] += v
+		}
+	}
+	if len(samples) == 0 {
+		for _, j := range jobs {
+			if len(samples) < 3 {
+				samples = append(samples, sample{Harness: j.describe(), Observed: []string{fmt.Sprintf("%d paths", j.paths)}})
+			}
+		}
+	}
+	fl := []string{}
+	for f := range funcs {
+		fl = append(fl, f)
+	}
+	sort.Strings(fl)
+	extra := map[string]interface{}{
+		"functions_encoded": fl, "solver_queries": s.totalQueries, "solver_time_s": float64(s.solverTime) / 1e9,
+		"obligations_discharged": obl, "ssa_steps": steps, "path_ends": ends, "jobs": len(jobs), "load_build_s": P.loadSecs,
+		"known_findings_hit": knownHit, "unconfirmed_abstract": unconfirmed, "solver": "z3 4.8.12 (z3 -in, one process per worker)",
+		"workers": *workers,
+	}
+	vn := 0
+	for range violations {
+		vn++
+	}
+	writeEvidence(spec, *tier, seed, samples, extra, time.Since(t0), problems, nil, nil, paths, branches, &validated)
+	evSetViolations(spec.Prop, vn)
+	fmt.Printf("check %s tier=%s: jobs=%d paths=%d solver-decided-branches=%d obligations=%d witnesses-replayed=%d/%d violations=%d known=%d wall=%.1fs exit=%d\n",
+		prop, *tier, len(jobs), paths, branches, obl, validated, nW, len(violations), len(knownHit), time.Since(t0).Seconds(), exit)
+	return exit
+}
+
+var lastEvidence map[string]interface{}
+
+func writeEvidence(spec *CheckSpec, tier string, seed int, samples []sample, extra map[string]interface{}, wall time.Duration,
+	problems []string, _ interface{}, _ interface{}, paths, branches int64, validated *int) {
+	cov := map[string]interface{}{}
+	for k, v := range extra {
+		cov[k] = v
+	}
+	if paths < 1 {
+		paths = 0
+	}
+	cov["states"] = paths
+	cov["transitions"] = branches
+	v := 0
+	if validated != nil {
+		v = *validated
+	}
+	cov["traces_validated_against_impl"] = v
+	ss := []interface{}{}
+	for _, s := range samples {
+		ss = append(ss, s)
+	}
+	if len(ss) == 0 {
+		ss = append(ss, "no sample: the run did not complete")
+	}
+	cov["samples"] = ss
+	cov["exhaustive"] = len(problems) == 0
+	cov["problems"] = problems
+	if spec.Bounds != nil {
+		cov["bounds"] = spec.Bounds(tier)
+	}
+	cov["outside_the_claim"] = spec.Outside
+	cov["explanation"] = spec.Explain
+	cov["evaluations"] = paths
+	cov["distinct_nontrivial"] = paths
+	cov["rule"] = "one evaluation = one complete symbolic execution path of a harness (a set of inputs characterised by its path condition); every path is distinct by construction (different branch decisions) and non-trivial when it reaches the end of the harness or an obligation"
+	ev := map[string]interface{}{
+		"property_id": spec.Prop, "tier": tier, "seed": seed, "level": spec.Level, "coverage": cov,
+		"assumptions": spec.Assumptions, "wall_s": wall.Seconds(), "violations": 0,
+	}
+	lastEvidence = ev
+	flushEvidence(spec.Prop)
+}
+
+func evSetViolations(prop string, n int) {
+	if lastEvidence != nil {
+		lastEvidence["violations"] = n
+		flushEvidence(prop)
+	}
+}
+
+func flushEvidence(prop string) {
+	dir := filepath.Join(verifDir(), "evidence")
+	os.MkdirAll(dir, 0755)
+	b, _ := json.MarshalIndent(lastEvidence, "", " ")
+	os.WriteFile(filepath.Join(dir, prop+".json"), b, 0644)
+}
+
+func cmdReplay(args []string) int {
+	if len(args) < 1 {
+		usage()
+	}
+	data, err := os.ReadFile(args[0])
+	if err != nil {
+		fmt.Println(err)
+		return 2
+	}
+	var rc struct {
+		Property string `json:"property"`
+		Case     Case   `json:"case"`
+		Finding  Finding
+	}
+	if err := json.Unmarshal(data, &rc); err != nil {
+		fmt.Println(err)
+		return 2
+	}
+	P, err := loadProgram()
+	if err != nil {
+		fmt.Println("load:", err)
+		return 2
+	}
+	res, log, err := runNative(P, []Case{rc.Case})
+	if err != nil {
+		fmt.Println("replay failed:", err, log)
+		return 2
+	}
+	r := res[rc.Case.ID]
+	fmt.Printf("replay of %s: harness=%s params=%v\n  inputs: %s\n  native outcome: %s %s %s\n", args[0], rc.Case.Entry, rc.Case.Params, strings.Join(rc.Case.Tape, " | "), r.Outcome, r.Detail, r.Func)
+	if r.Outcome == "ok" {
+		fmt.Println("  the violation does not reproduce on the current tree")
+		return 0
+	}
+	fmt.Printf("VIOLATION property=%s replay=%s\n", rc.Property, args[0])
+	return 1
+}
